@@ -28,7 +28,7 @@ def top_of(ty):
 
 def build_families(f):
     """Symbolically execute the (single) builder -> MCOptimiser and group the paths by configuration family."""
-    cands = [b for b in f.bodies.values() if not b.is_closure and b.crate_kind == 'lib'
+    cands = [b for b in f.bodies.values() if not b.is_closure and b.crate_kind == 'lib' and not b.derived and not b.impl_trait
              and b.raw['locals'][0]['ty'].replace('packing::', '') == 'optimisation::MCOptimiser']
     if len(cands) != 1:
         return None, 'expected exactly one non-test function returning MCOptimiser, found %d' % len(cands), None
